@@ -470,14 +470,21 @@ func c17Renderer(c *run.Ctx, idx uint64) {
 		c.Count("pixel_pairs", 1)
 		bounds := image.Rect(0, 0, rect.Max.X+2, rect.Max.Y+2)
 		img1, img2 := image.NewRGBA(bounds), image.NewRGBA(bounds)
-		okp := c.Guard("pixel reuse", func() interface{} { return desc(nil) }, func() {
-			scratch := image.NewRGBA(bounds)
-			vz := &vec.Rasterizer{Dst: scratch, DrawOp: draw.Src}
-			var z render.Renderer
-			z.SetRasterizer(vz, rect)
-			if moderateStream(bytesA, rect) {
-				decode.Decode(&z, bytesA)
+		scratch := image.NewRGBA(bounds)
+		vz := &vec.Rasterizer{Dst: scratch, DrawOp: draw.Src}
+		var z render.Renderer
+		z.SetRasterizer(vz, rect)
+		if moderateStream(bytesA, rect) {
+			// History A may be hostile; golang.org/x/image/vector itself can panic on
+			// it (DESIGN 6.5: integer divide by zero in its fixed-point span loop for an
+			// almost horizontal, very long segment). A history that ends in a panic of
+			// the third-party rasteriser is outside the property (and leaves that
+			// rasteriser in an undefined state), so such a pair is skipped, counted.
+			if ok, _ := c.GuardDep("pixel reuse, history A", "golang.org/x/image/", func() interface{} { return desc(nil) }, func() { decode.Decode(&z, bytesA) }); !ok {
+				return
 			}
+		}
+		okp := c.Guard("pixel reuse", func() interface{} { return desc(nil) }, func() {
 			vz.Dst, vz.DrawOp = img1, draw.Src
 			decode.Decode(&z, bytesB)
 			var zf render.Renderer
